@@ -549,7 +549,7 @@ impl<'a> Resolver<'a> {
             }
             EvSpec::Fill { inst, buy, price_q, qty, fee_bp, dt } => {
                 let inst = self.inst(*inst);
-                let t = self.time((*dt).max(0));
+                let t = self.time(*dt);
                 self.trade_seq += 1;
                 let price = Decimal::new((*price_q).max(1) as i64 * 25, 2);
                 let quantity = Decimal::new((*qty).max(1) as i64, 1);
